@@ -27,7 +27,7 @@ def hfiles(stem):
     return out
 
 
-def _backend(stg, seed, array=False, bits=8, npol=2):
+def _backend(stg, seed, array=False, bits=8, npol=2, window='hamming'):
     v = stg.voltage
     kw = dict(sample_rate=1e6, fch1=1e9, ascending=bool(seed % 2), num_pols=npol, seed=seed)
     src = v.MultiAntennaArray(num_antennas=2, delays=[0, 3], **kw) if array else v.Antenna(**kw)
@@ -39,7 +39,7 @@ def _backend(stg, seed, array=False, bits=8, npol=2):
         for s in a.streams:
             s.add_noise(0, 1)
             s.add_constant_signal(f_start=1e9 + (1e6 / 16) * 2.3 * (1 if seed % 2 else -1) * (-1 if not kw['ascending'] else 1), drift_rate=0, level=0.1)
-    rvb = v.RawVoltageBackend(src, digitizer=v.RealQuantizer(num_bits=8), filterbank=v.PolyphaseFilterbank(num_taps=4, num_branches=16),
+    rvb = v.RawVoltageBackend(src, digitizer=v.RealQuantizer(num_bits=8), filterbank=v.PolyphaseFilterbank(num_taps=4, num_branches=16, window_fn=window),
                               requantizer=v.ComplexQuantizer(num_bits=bits), start_chan=1, num_chans=3,
                               block_size=(2 if array else 1) * 3 * 16 * (2 * npol * bits // 8), blocks_per_file=2, num_subblocks=2)
     return rvb, src
@@ -99,8 +99,8 @@ def s_chanstd(stg, seed, tmp):
     return [('stds', h(np.array(a)))]
 
 
-def _rec(stg, seed, tmp, name, array=False, bits=8, npol=2, **kw):
-    rvb, src = _backend(stg, seed, array=array, bits=bits, npol=npol)
+def _rec(stg, seed, tmp, name, array=False, bits=8, npol=2, window='hamming', **kw):
+    rvb, src = _backend(stg, seed, array=array, bits=bits, npol=npol, window=window)
     stem = os.path.join(tmp, name)
     with common.quiet():
         rvb.record(stem, num_blocks=3, length_mode='num_blocks', verbose=False, **kw)
@@ -124,6 +124,37 @@ def s_record_explicit(stg, seed, tmp):
 
 def s_record_array4(stg, seed, tmp):
     return _rec(stg, seed, tmp, 'recarr', array=True, bits=4, npol=1, header_dict={'DIRECTIO': 1})
+
+
+def s_record_hann(stg, seed, tmp):
+    # a non-default PFB window with the same (taps, branches) as every other scenario
+    return _rec(stg, seed, tmp, 'rechann', window='hann', header_dict={'DIRECTIO': 0})
+
+
+def s_record_blackman(stg, seed, tmp):
+    return _rec(stg, seed, tmp, 'recblk', window='blackman', load_template=False)
+
+
+def s_inject_foreign_cards(stg, seed, tmp):
+    # input header with cards that are neither in the template nor supplied by the user; no template on re-recording
+    v = stg.voltage
+    rvb, src = _backend(stg, seed)
+    stem = os.path.join(tmp, 'injfin')
+    extra = {'DIRECTIO': 0, 'XTRACARD': 'alpha', 'ZZTOP': 42, 'AARDVARK': 2.5, 'MIDDLE': 'm', 'QUUX': -7, 'FOO1': 1, 'FOO2': 2, 'BAR': 'b'}
+    with common.quiet():
+        rvb.record(stem, num_blocks=2, length_mode='num_blocks', header_dict=dict(extra), load_template=False, verbose=False)
+    a = v.Antenna(sample_rate=1e6, fch1=1e9, ascending=bool(seed % 2), num_pols=2, seed=seed + 11)
+    a.x.add_constant_signal(f_start=1e9 + (1e6 / 16) * 2.2 * (1 if seed % 2 else -1), drift_rate=0, level=0.05)
+    fb = v.PolyphaseFilterbank(num_taps=4, num_branches=16)
+    fb.estimate_channelized_stds(factor=50, seed=seed + 5)
+    with common.quiet():
+        b2 = v.RawVoltageBackend.from_data(stem, a, filterbank=fb, start_chan=1, num_subblocks=1)
+        out_stem = os.path.join(tmp, 'injfout')
+        b2.record(out_stem, header_dict={'USERCARD': 1}, load_template=False, verbose=False)
+    out = [('injf:' + n, d) for n, d in hfiles(out_stem)]
+    for f in glob.glob(os.path.join(tmp, 'injf*.raw')):
+        os.remove(f)
+    return out
 
 
 def s_record_twice_same_backend(stg, seed, tmp):
@@ -161,7 +192,8 @@ def s_inject(stg, seed, tmp):
 
 SCENARIOS = {f.__name__[2:]: f for f in (s_frame_noise, s_frame_signal, s_stream, s_array, s_chanstd, s_record_default,
                                          s_record_default_notemplate, s_record_explicit, s_record_array4,
-                                         s_record_twice_same_backend, s_inject)}
+                                         s_record_twice_same_backend, s_inject, s_record_hann, s_record_blackman,
+                                         s_inject_foreign_cards)}
 
 
 def run(name, seed, tmp):
